@@ -31,14 +31,20 @@ def run_tap(tap, args, wd, mode='pipe'):
 def mk_scripts(rng, n, sks):
     """n leaf scripts; leaf 0.. use distinct keys; a few equal scripts when asked"""
     out = []
+    texts = {}
     for i in range(n):
         r = rng.random()
         if r < 0.7:
             out.append(push_only(secp.xonly_from_sec(sks[i % len(sks)] + i)) + bytes([OP_CHECKSIG]))
         elif r < 0.85:
             out.append(bytes([OP_SHA256]) + push_only(sha256(bytes([i & 255, i >> 8]))) + bytes([OP_EQUAL]))
-        elif r < 0.93 or n > 64:
+        elif r < 0.90 or n > 64:
             out.append(push_num(i) + bytes([OP_DROP, OP_1]))
+        elif r < 0.95:
+            # a leaf written in the tools' script syntax with an inline function: the 20-byte hash is given as a bech32 (v0) address
+            h160 = hash160(bytes([i & 255, 7]))
+            out.append(bytes([OP_DUP, OP_HASH160]) + push_only(h160) + bytes([OP_EQUALVERIFY, OP_CHECKSIG]))
+            texts[i] = '[OP_DUP OP_HASH160 bech32dec(%s) OP_EQUALVERIFY OP_CHECKSIG]' % codec.segwit_addr_encode(rng.choice(['bcrt', 'bc', 'tb']), 0, h160)
         else:
             # a leaf longer than 520 bytes: tapscripts have no size limit (the 520-byte rule is for stack items, not for the script)
             out.append(push_num(i) + bytes([OP_DROP]) + bytes([OP_NOP]) * rng.choice([517, 518, 519, 600, 2000]) + bytes([OP_1]))
@@ -47,7 +53,11 @@ def mk_scripts(rng, n, sks):
         a, b = rng.randrange(n), rng.randrange(n)
         out[a] = out[b]      # equal scripts
         origin[a] = b        # (leaf a is to be satisfied like leaf b: same key / preimage)
+        texts.pop(a, None)
+        if b in texts:
+            texts[a] = texts[b]
     mk_scripts.origin = origin
+    mk_scripts.texts = texts
     return out
 
 
@@ -73,9 +83,10 @@ def tree_case(job):
         sks = [rsign.rnd_sk(rng) for _ in range(3)]
         scripts = mk_scripts(rng, n, sks)
         origin = list(mk_scripts.origin)
+        texts = dict(mk_scripts.texts)
         hrp = rng.choice(['bcrt', 'bcrt', 'tb', 'bc'])
         pre = [] if hrp == 'bcrt' and rng.random() < 0.7 else ['--addrprefix=' + hrp]
-        base = [ikey.hex(), str(n)] + ['0x' + s.hex() for s in scripts]
+        base = [ikey.hex(), str(n)] + [texts.get(i, '0x' + s.hex()) for i, s in enumerate(scripts)]
         wit0 = dict(internal_key=ikey.hex(), n=n, scripts=[s.hex() for s in scripts][:8], hrp=hrp)
         # (a) address only
         r = run_tap(tap, pre + base, wd)
